@@ -11,7 +11,8 @@
                     limit + largest message, and that bound is reached                   flow_overshoot, flow_overshoot_tight
    plus: the read watch (bytes still in the socket) and the dispatch-status test (bytes already in the loader) agree,
    which is what makes the outcome independent of the chunking at flow-control level   flow_socket_equals_loader
-   and: changing the limits on a live connection (SetLimits) CAN wedge it               flow_set_limits_can_wedge *)
+   and: changing the limits of a live connection is covered by (b) and right at once    flow_set_limits_immediate
+        (before /repo d42cc8a it could wedge the connection)                             flow_set_limits_prefix_refuted *)
 From DV Require Import Wire.Flow.
 From Coq Require Import ZArith NArith List Bool Lia ZifyBool ZifyN ZifyNat.
 Import ListNotations.
@@ -141,9 +142,9 @@ Definition watch_ok (t : transport) : Prop :=
 Lemma watch_ok_init ms mf : watch_ok (transport_init ms mf).
 Proof. intros _. reflexivity. Qed.
 
-Lemma watch_ok_step t e t' : acct t -> watch_ok t -> is_set_limits e = false -> fstep t e = Some t' -> watch_ok t'.
+Lemma watch_ok_step t e t' : acct t -> watch_ok t -> fstep t e = Some t' -> watch_ok t'.
 Proof.
-  intros [Hfn Hsg Hfg _ _] Hw He H. unfold fstep in H. destruct e as [s n|k| |ms mf]; cbn [step] in H; try discriminate.
+  intros [Hfn Hsg Hfg _ _] Hw H. unfold fstep in H. destruct e as [s n|k| |ms mf]; cbn [step] in H.
   - destruct (may_queue_more t); injection H as <-; [|exact Hw]. intros _. reflexivity.
   - destruct (nth_error (t_live t) k) as [m|]; [|discriminate]. injection H as <-.
     unfold watch_ok, below_limits in *. cbn. rewrite Hfn, Hsg, Hfg in *. cbn [andb].
@@ -154,36 +155,36 @@ Proof.
   - unfold do_notify in H. destruct (c_pending (t_counter t)) eqn:Hp; injection H as <-.
     + rewrite Hfn. intros _. reflexivity.
     + intros _. cbn. exact (Hw Hp).
+  - (* SetLimits: the setter re-evaluates the watch *)
+    injection H as <-. intros _. reflexivity.
 Qed.
 
-Lemma watch_ok_run : forall evs t t', acct t -> watch_ok t -> no_set_limits evs = true -> frun t evs = Some t' ->
-  watch_ok t'.
+Lemma watch_ok_run : forall evs t t', acct t -> watch_ok t -> frun t evs = Some t' -> watch_ok t'.
 Proof.
-  induction evs as [|e evs IH]; intros t t' Ha Hw Hn H; unfold frun in *; cbn [run] in H.
+  induction evs as [|e evs IH]; intros t t' Ha Hw H; unfold frun in *; cbn [run] in H.
   - injection H as <-. exact Hw.
-  - cbn [no_set_limits forallb] in Hn. apply andb_prop in Hn. destruct Hn as [He Hn].
-    destruct (step crossed true t e) as [t1|] eqn:Hs; [|discriminate].
+  - destruct (step crossed true t e) as [t1|] eqn:Hs; [|discriminate].
     apply (IH t1 t' (acct_step _ _ _ _ _ Ha Hs)); auto.
-    apply (watch_ok_step t e t1); auto. destruct (is_set_limits e); [discriminate|reflexivity].
+    apply (watch_ok_step t e t1); auto.
 Qed.
 
 (* THE NO-WEDGE INVARIANT: in every reachable state with no notification pending, the read watch is enabled
-   exactly when both values are below their limits. *)
-Theorem flow_no_wedge : forall ms mf evs t, no_set_limits evs = true -> frun (transport_init ms mf) evs = Some t ->
+   exactly when both values are below their (current) limits.  Every event is allowed, changing the limits included. *)
+Theorem flow_no_wedge : forall ms mf evs t, frun (transport_init ms mf) evs = Some t ->
   c_pending (t_counter t) = false -> read_watch_enabled t = below_limits t.
-Proof. intros ms mf evs t Hn H. exact (watch_ok_run evs _ _ (acct_init _ _) (watch_ok_init _ _) Hn H). Qed.
+Proof. intros ms mf evs t H. exact (watch_ok_run evs _ _ (acct_init _ _) (watch_ok_init _ _) H). Qed.
 
 (* ... and once the pending notification (if any) has run, nothing is pending, the values are untouched and the watch
    is right.  No hypothesis on pending: this is "once every pending notification has run". *)
-Theorem flow_no_wedge_after_notify : forall ms mf evs t, no_set_limits evs = true ->
+Theorem flow_no_wedge_after_notify : forall ms mf evs t,
   frun (transport_init ms mf) evs = Some t ->
   exists t', fstep t Notify = Some t' /\ c_pending (t_counter t') = false /\
              c_size (t_counter t') = c_size (t_counter t) /\ c_fd (t_counter t') = c_fd (t_counter t) /\
              below_limits t' = below_limits t /\ read_watch_enabled t' = below_limits t.
 Proof.
-  intros ms mf evs t Hn H.
+  intros ms mf evs t H.
   pose proof (acct_run _ _ _ _ _ (acct_init ms mf) H) as Ha.
-  pose proof (watch_ok_run evs _ _ (acct_init _ _) (watch_ok_init _ _) Hn H) as Hw.
+  pose proof (watch_ok_run evs _ _ (acct_init _ _) (watch_ok_init _ _) H) as Hw.
   destruct Ha as [Hfn _ _ _ _]. unfold fstep. cbn [step]. unfold do_notify.
   destruct (c_pending (t_counter t)) eqn:Hp.
   - rewrite Hfn. eexists. split; [reflexivity|]. repeat split.
@@ -215,11 +216,11 @@ Corollary flow_release_wakes_or : forall ms mf evs t k t', frun (transport_init 
 Proof. intros. left. eapply flow_release_wakes; eauto. Qed.
 
 (* dbus_message_unref in one thread (free_counter: adjusts, then _dbus_counter_notify): the watch is right immediately *)
-Theorem flow_unref_immediate : forall ms mf evs t k t', no_set_limits evs = true ->
+Theorem flow_unref_immediate : forall ms mf evs t k t',
   frun (transport_init ms mf) evs = Some t -> frun t (unref k) = Some t' ->
   c_pending (t_counter t') = false /\ read_watch_enabled t' = below_limits t'.
 Proof.
-  intros ms mf evs t k t' Hn H Hu. unfold frun, unref in Hu. cbn [run] in Hu.
+  intros ms mf evs t k t' H Hu. unfold frun, unref in Hu. cbn [run] in Hu.
   destruct (step crossed true t (Release k)) as [t1|] eqn:H1; [|discriminate].
   destruct (step crossed true t1 Notify) as [t2|] eqn:H2; [|discriminate]. injection Hu as <-.
   assert (Hr : frun (transport_init ms mf) (evs ++ [Release k]) = Some t1).
@@ -227,16 +228,14 @@ Proof.
     induction evs as [|e evs IH]; intros t0 H; cbn [run app] in *.
     - injection H as ->. rewrite H1. reflexivity.
     - destruct (step crossed true t0 e); [|discriminate]. apply IH. exact H. }
-  assert (Hn' : no_set_limits (evs ++ [Release k]) = true).
-  { unfold no_set_limits in *. rewrite forallb_app, Hn. reflexivity. }
-  destruct (flow_no_wedge_after_notify _ _ _ _ Hn' Hr) as [t2' [Hs [Hp [_ [_ [Hb Hw]]]]]].
+  destruct (flow_no_wedge_after_notify _ _ _ _ Hr) as [t2' [Hs [Hp [_ [_ [Hb Hw]]]]]].
   unfold fstep in Hs. rewrite H2 in Hs. injection Hs as <-. split; [exact Hp|]. rewrite Hb. exact Hw.
 Qed.
 
 (* C11 at flow-control level: whether the next message can be taken does not depend on where its bytes are.  Bytes
    still in the socket need the read watch; bytes already in the loader need the dispatch-status test.  The two agree
    (the second is the first, for all states; the first is the watch, in quiescent reachable states). *)
-Theorem flow_socket_equals_loader : forall ms mf evs t, no_set_limits evs = true ->
+Theorem flow_socket_equals_loader : forall ms mf evs t,
   frun (transport_init ms mf) evs = Some t -> c_pending (t_counter t) = false ->
   read_watch_enabled t = may_queue_more t.
 Proof. intros. rewrite may_queue_is_below. eapply flow_no_wedge; eauto. Qed.
@@ -300,19 +299,27 @@ Proof.
 Qed.
 
 (* ---- C13: capacity freed becomes usable again -------------------------------------------------- *)
-Theorem flow_capacity_reusable : forall ms mf evs t, 0 < ms -> 0 < mf -> no_set_limits evs = true ->
-  frun (transport_init ms mf) evs = Some t -> t_live t = [] ->
+Theorem flow_capacity_reusable : forall ms mf evs t, frun (transport_init ms mf) evs = Some t ->
+  0 < t_max_size t -> 0 < t_max_fds t -> t_live t = [] ->
   exists t', fstep t Notify = Some t' /\ read_watch_enabled t' = true /\ may_queue_more t' = true.
 Proof.
-  intros ms mf evs t Hms Hmf Hn H Hl.
-  destruct (flow_no_wedge_after_notify _ _ _ _ Hn H) as [t' [Hs [_ [_ [_ [Hb Hw]]]]]].
+  intros ms mf evs t H Hms Hmf Hl.
+  destruct (flow_no_wedge_after_notify _ _ _ _ H) as [t' [Hs [_ [_ [_ [Hb Hw]]]]]].
   exists t'. split; [exact Hs|].
   assert (Hbt : below_limits t = true).
   { destruct (acct_run _ _ _ _ _ (acct_init ms mf) H) as [_ _ _ Hsz Hfd].
-    assert (L : t_max_size t = ms /\ t_max_fds t = mf) by exact (limits_run _ _ _ _ _ Hn H).
-    destruct L as [L1 L2]. unfold below_limits. rewrite Hsz, Hfd, Hl, L1, L2. cbn. lia. }
+    unfold below_limits. rewrite Hsz, Hfd, Hl. cbn. lia. }
   split; [rewrite Hw; exact Hbt|]. rewrite may_queue_is_below, Hb. exact Hbt.
 Qed.
+
+(* changing the limits of a live connection (dbus_connection_set_max_received_size / _unix_fds): nothing is pending
+   afterwards and the watch is right for the NEW limits at once *)
+Theorem flow_set_limits_immediate : forall ms mf evs t ms' mf' t', frun (transport_init ms mf) evs = Some t ->
+  fstep t (SetLimits ms' mf') = Some t' ->
+  c_pending (t_counter t') = false /\ t_max_size t' = ms' /\ t_max_fds t' = mf' /\
+  c_size (t_counter t') = c_size (t_counter t) /\ c_fd (t_counter t') = c_fd (t_counter t) /\
+  read_watch_enabled t' = below_limits t'.
+Proof. intros ms mf evs t ms' mf' t' _ H. unfold fstep in H. cbn [step] in H. injection H as <-. repeat split. Qed.
 
 (* ---- the seeded variant (/verif/seeded/C11_4: crossed_guard with <=) ---------------------------- *)
 (* value EXACTLY on the limit: limit 100, one message of 100 bytes arrives (watch off: 100 >= 100; `<=` sees no
@@ -360,17 +367,21 @@ Proof. eexists. split; [vm_compute; reflexivity|reflexivity]. Qed.
 Example faithful_on_witness : exists t, frun (transport_init 100 10) seeded_witness = Some t /\ read_watch_enabled t = true.
 Proof. eexists. split; [vm_compute; reflexivity|reflexivity]. Qed.
 
-(* ---- changing the limits of a live connection ---------------------------------------------------- *)
-(* _dbus_transport_set_max_received_size re-installs the guards with _dbus_counter_set_notify, which clears
-   notify_pending, and does not call check_read_watch.  Raising a limit that the connection has reached therefore
-   leaves the watch disabled with nothing pending, and because the value is now BELOW the new guard no later release
-   crosses it: the faithful model wedges.  (The bus only sets the limits on new connections, with nothing live.) *)
+(* ---- changing the limits of a live connection, before /repo d42cc8a --------------------------------- *)
+(* _dbus_transport_set_max_received_size re-installed the guards with _dbus_counter_set_notify, which clears
+   notify_pending, and did NOT call check_read_watch (machine prun: recheck = false).  Raising a limit that the
+   connection had reached left the watch disabled with nothing pending, and because the value was then BELOW the new
+   guard no later release crossed it.  The machine as it is now (frun) is right on the same events. *)
 Definition set_limits_witness : list event := [Arrive 100 0; SetLimits 200 10; Release 0; Notify].
 
-Theorem flow_set_limits_can_wedge :
-  exists ms mf evs t, frun (transport_init ms mf) evs = Some t /\
+Theorem flow_set_limits_prefix_refuted :
+  exists ms mf evs t, prun (transport_init ms mf) evs = Some t /\
     c_pending (t_counter t) = false /\ below_limits t = true /\ t_live t = [] /\ read_watch_enabled t = false.
 Proof.
   exists 100, 10, set_limits_witness, (mkT (mkCounter 0 0 200 10 true false) 200 10 [] false).
   vm_compute. repeat split; reflexivity.
 Qed.
+
+Example faithful_on_set_limits_witness :
+  exists t, frun (transport_init 100 10) set_limits_witness = Some t /\ read_watch_enabled t = true /\ t_live t = [].
+Proof. eexists. split; [vm_compute; reflexivity|]. split; reflexivity. Qed.
